@@ -53,6 +53,12 @@ def check(tier: str, seed: int) -> int:
     for v in res.violated:
         run.violation(f"model|{v}", v, {"tlc_tail": res.stdout[-1500:]})
     docs = model_docs(tier, seed, run)
+    if len(docs) > 160000:          # thorough: the two-part product is sampled (memory of the sandbox), the rest is kept whole
+        import random
+        rnd = random.Random(seed)
+        keep = set(rnd.sample(range(len(docs)), 160000))
+        run.coverage["documents_sampled_from"] = len(docs)
+        docs = [d for i, d in enumerate(docs) if i in keep]
     cases, seen, discards = [], set(), 0
     for d in docs:
         t = render_canon(d, seed)
